@@ -10,6 +10,7 @@ use crate::fixtures::{self, Merchant};
 use crate::props::util::*;
 use crate::refs::*;
 use crate::session::{amount, Sess, Stage};
+use crate::srng::ScriptRng;
 use crate::tracer::trace;
 use crate::wire::{dec, enc};
 use bls12_381::{G1Affine, Scalar};
@@ -319,6 +320,63 @@ pub fn run(c: &mut Ctx) {
         }
         v
     };
+    // a payment whose revocation-lock commitment was made under the blinding factor zero (the customer's
+    // draw for it scripted to zero): the right pair with that factor opens the commitment like any other
+    for k in 0..c.tier.pick(2usize, 8) {
+        let name = format!("zero-blinding-factor/{}", k);
+        c.case(&name, |c| {
+            let mut rng = c.rng(&name);
+            let s0 = match Sess::open(m, &mut rng, 50 + k as u64, 9, b"c05z") {
+                Ok(s) => s,
+                Err(e) => return c.inconclusive(&e),
+            };
+            let ready = s0.stage.bytes();
+            let mut seed = [0u8; 32];
+            rng.fill_bytes(&mut seed);
+            let fresh = |ready: &[u8]| -> Result<Sess, String> { Ok(Sess::from_stage(m, s0.cid, crate::session::Stage::from_bytes("ready", ready)?, s0.ledger)) };
+            let mut dry = ScriptRng::new(seed);
+            match fresh(&ready).and_then(|mut s| s.c_start(&mut dry, amount(2)?, b"c05z").map(|_| ())) {
+                Ok(()) => {}
+                Err(e) => return c.inconclusive(&e),
+            }
+            let mut hit = false;
+            for d in dry.draws_of_len(64) {
+                let mut r = ScriptRng::new(seed);
+                r.inject(d, vec![0u8; 64]);
+                let Ok(mut s) = fresh(&ready) else { return c.inconclusive("C05: state copy") };
+                let Ok(Ok((nonce, proof))) = s.c_start(&mut r, amount(2).unwrap(), b"c05z") else { continue };
+                // cheap look first: does the started state hold a zero blinding factor for the lock commitment?
+                let zero_bf_held = match &s.stage {
+                    Stage::Started(st) => trace(st).map(|t| t.atoms.iter().any(|a| a.fpath.contains("blinding_factor") && a.len == 32 && t.atom_bytes(a).iter().all(|x| *x == 0))).unwrap_or(false),
+                    _ => false,
+                };
+                if !zero_bf_held {
+                    continue;
+                }
+                let Ok(Some(sig)) = s.m_allow(&mut rng, amount(2).unwrap(), &nonce, &proof, b"c05z") else { continue };
+                let Ok(Some((pair, bf))) = s.c_lock(&sig) else { continue };
+                if bf.iter().any(|x| *x != 0) {
+                    continue;
+                }
+                hit = true;
+                c.eval();
+                c.distinct(&name);
+                c.count("payments_with_zero_revocation_blinding_factor", 1);
+                match s.m_complete(&mut rng, &pair, &bf) {
+                    Ok(Some(tok)) => match s.c_unlock(&tok) {
+                        Ok(true) => c.count("zero_blinding_factor_payments_completed", 1),
+                        _ => c.violation("C05 issued-token-refused-by-customer candidate=right-pair,zero-blinding-factor", json!({"draw": d})),
+                    },
+                    Ok(None) => c.violation("C05 right-pair-refused candidate=right-pair,zero-blinding-factor", json!({"draw": d, "blinding_factor": hex(&bf)})),
+                    Err(e) => c.inconclusive(&e),
+                }
+                break;
+            }
+            if !hit {
+                c.inconclusive("C05: no scalar draw of Ready::start could be aimed at the revocation blinding factor");
+            }
+        });
+    }
     let nch = c.tier.pick(32usize, 300);
     for i in 0..nch {
         let name = format!("channel{}", i);
